@@ -64,9 +64,10 @@ def run(rep, tier):
     tpath = os.path.join(wd, "trace.ndjson")
     _, real, _ = vlib.run_harness(["real"], pkg="vh-api")
     _, wire, _ = vlib.run_harness(["wire", "--n", "3000" if thorough else "400"], pkg="vh-api")
+    _, authrecs, _ = vlib.run_harness(["authtable"], pkg="vh-api")
     recs = []
     nresp = 0
-    for ln in real.splitlines() + wire.splitlines():
+    for ln in real.splitlines() + authrecs.splitlines() + wire.splitlines():
         r = json.loads(ln)
         if r["kind0"] == "response":
             nresp += 1
@@ -84,6 +85,8 @@ def run(rep, tier):
         r = recs[i - 1]
         if r["kind0"] == "select":
             rep.violation("select/real-endpoint/%s" % r["endpoint"].replace(" ", ""), r)
+        elif r["kind0"] == "authtable":
+            rep.violation("wire/authorization-header/%s-%s" % (r["auth"], r["send"]), r)
         else:
             if not r["panic"] and not r["equal"] and r.get("equal_mod_empty_optional") and r["reencode_identical"] is not None:
                 # everything else of the record must still be right
